@@ -290,7 +290,8 @@ def tsat(p, bounds = False):
         def f(t):
             # fsolve may pass a one-element array, which math.exp() refuses:
             if isinstance(t, Iterable): t = t[0]
-            return sat(t) - p
+            # keep the iterate inside the range over which sat() is defined:
+            return sat(min(max(t, 0.01), 500.0)) - p
         from math import log
         t0 = max(4606.0 / (24.02 - log(p)) - 273.15, 5.0) # starting estimate
         t = fsolve(f, t0)
